@@ -531,3 +531,8 @@ fn test_reflexitivity() {
     }));
     parse(&data).unwrap();
 }
+
+#[cfg(feature = "isomer_erbium_verif")]
+mod isomer_erbium_verif {
+    include!(concat!(env!("ISOMER_ERBIUM_VERIF_DIR"), "/radv_icmppkt.rs"));
+}
